@@ -132,8 +132,8 @@ def check(run, P):
     run.rule("C07.arity", "recursive calls of the expression rewriters pass exactly "
              "the extra arguments the handlers take", minimum=8)
     run.rule("C07.selfdep", "self-dependency elimination: copy-in before the "
-             "rewritten statement, left-hand side untouched, sorted iteration",
-             minimum=3)
+             "rewritten statement, left-hand side and guard untouched, sorted iteration",
+             minimum=4)
     run.rule("C07.mapexpr", "map_expressions maps every field that feeds the read "
              "set (shared with C08.ident / C16.fields)", minimum=8)
 
@@ -169,6 +169,9 @@ def check(run, P):
     _alias(run, "C08.ident", "C07.mapexpr",
            lambda: c08._ident(run, P, stmtmodel.statement_classes(P)))
     coverage(run, P, "C07.mapexpr", include_written=False)
+    _rhs_only(run, P)
+    _flat_and(run, P)
+    _kwpair(run, P)
 
 
 def _seed(run, P):
@@ -183,24 +186,50 @@ def _seed(run, P):
     c = None
     if ok:
         hits = find("ANY(stmt_id_gen=get_stmt_id_generator(V_s), "
-                    "var_name_gen=get_var_name_generator(V_s))", f.node, {"V_s": env["V_s"]})
+                    "var_name_gen=get_var_name_generator(V_s, V_p))", f.node,
+                    {"V_s": env["V_s"], "V_p": env["V_p"]})
         c = hits[0][0] if hits else None
     run.ob("C07.fresh", f, c if c is not None else f.node, c is not None,
            construct="rewriter(stmt_id_gen=get_stmt_id_generator(<statements>), "
-                     "var_name_gen=get_var_name_generator(<statements>))",
-           why="ids and names must be generated against the ids / names in use")
+                     "var_name_gen=get_var_name_generator(<statements>, <phase ast>))",
+           why="ids and names must be generated against the ids / names in use; the "
+               "loops of a statement live in the AST, not in the statement")
     g = P.func(f"{MOD}.get_var_name_generator")
     lp = [x for x in ast.walk(g.node) if isinstance(x, ast.For) and dotted(x.iter) == g.params[0]]
     ok = False
+    vset = None
     if lp and isinstance(lp[0].target, ast.Name):
         v = lp[0].target.id
         w = find(f"V_set.update({v}.get_written_variables())", lp[0])
         r = find(f"V_set.update({v}.get_read_variables())", lp[0])
         ok = bool(w) and bool(r) and w[0][1]["V_set"] == r[0][1]["V_set"] \
             and has("UniqueNameGenerator(V_set)", g.node, {"V_set": w[0][1]["V_set"]})
+        vset = w[0][1]["V_set"] if w else None
     run.ob("C07.fresh", g, g.node, ok,
            construct="name generator seeded with read u written variables of all statements",
            why="a name in use that the generator does not know can be handed out again")
+    # ... and with the loop variables / bound variables of the AST
+    ok = False
+    finder = None
+    if vset and len(g.params) >= 2:
+        for x in ast.walk(g.node):
+            if isinstance(x, ast.Call) and dotted(x.func) == f"{vset}.update" and x.args \
+                    and isinstance(x.args[0], ast.Call) and isinstance(x.args[0].func, ast.Call) \
+                    and x.args[0].args and dotted(x.args[0].args[0]) == g.params[1]:
+                finder = P.resolve_name(g, dotted(x.args[0].func.func) or "")
+    if finder is not None and hasattr(finder, "methods"):
+        mf = P.method(finder, "map_ForLoop")
+        mv = P.method(finder, "map_variable")
+        ok = mf is not None and "loop_var_name" in ast.unparse(mf.node) \
+            and "super().map_ForLoop" in ast.unparse(mf.node) \
+            and mv is not None and any(isinstance(r_, ast.Return) and norm(r_.value) ==
+                                       f"{{{mv.params[1]}.name}}" for r_ in ast.walk(mv.node))
+    run.ob("C07.fresh", g, g.node, ok,
+           construct="name generator also seeded with the loop variables and the variables "
+                     "of loop bounds and conditions found in the phase AST",
+           why="the lowering peels the loops off a statement: a loop variable the body "
+               "does not mention, or a variable used only as a bound, is otherwise "
+               "unknown and 'tmp' can be handed out although a loop counts in 'tmp'")
     h = P.func(f"{MOD}.get_stmt_id_generator")
     ok = has(f"UniqueNameGenerator({{V_x.id for V_x in {h.params[0]}}})", h.node)
     run.ob("C07.fresh", h, h.node, ok,
@@ -637,18 +666,36 @@ def _selfdep(run, P):
     lists = stmt_list_names(f) - {"self.new_statements"}
     deps = dep_list_names(f)
     # the rewritten statement: a local assigned from stmt.map_expressions(...).copy(depends_on=...)
-    rew = find(f"V_new = {stmt}.map_expressions(ANY, include_lhs=False).copy("
-               f"depends_on={stmt}.depends_on | frozenset(V_ids))", f.node)
+    from .util import match
+    rew = []
+    for s_ in ast.walk(f.node):
+        if isinstance(s_, ast.Assign) and len(s_.targets) == 1 and isinstance(s_.targets[0], ast.Name) \
+                and isinstance(s_.value, ast.Call) and isinstance(s_.value.func, ast.Attribute) \
+                and s_.value.func.attr == "copy" \
+                and match(f"{stmt}.map_expressions(ANY, include_lhs=False)", s_.value.func.value) is not None:
+            kws = {k.arg: k.value for k in s_.value.keywords}
+            b = match(f"{stmt}.depends_on | frozenset(V_ids)", kws.get("depends_on")) \
+                if kws.get("depends_on") is not None else None
+            if b is not None:
+                rew.append((s_, {"V_new": s_.targets[0].id, "V_ids": b["V_ids"]}, kws))
     ok = False
     site = f.node
+    cond_ok = False
     if rew and rew[0][1]["V_ids"] in deps:
         newv = rew[0][1]["V_new"]
+        cond_ok = norm(rew[0][2].get("condition")) == f"{stmt}.condition" \
+            if rew[0][2].get("condition") is not None else False
         final = [n for n in g.nodes if n.kind == "stmt" and any(
             isinstance(x, ast.Call) and isinstance(x.func, ast.Attribute)
             and x.func.attr == "append" and dotted(x.func.value) in lists
             and x.args and dotted(x.args[0]) == newv for x in walk_fragment(n.ast))]
         ok = bool(final) and not g.always_preceded(final, [loop_node])
         site = final[0].ast if final else f.node
+    run.ob("C07.selfdep", f, rew[0][0] if rew else f.node, cond_ok,
+           construct=f"the rewritten statement keeps the original guard: copy(condition={stmt}.condition, ...)",
+           why="map_expressions substitutes in the guard too; the copies are only made "
+               "when the guard holds, so a guard that reads a copy reads a variable "
+               "that is never set when the guard is false")
     run.ob("C07.selfdep", f, site, ok,
            construct="copy-in statements are appended before the rewritten statement, "
                      "which depends on them",
@@ -681,6 +728,133 @@ def coverage(run, P, rule, include_written=True):
                    why=f"a mapper that renames variables (fusion) or substitutes "
                        f"expressions (rewriting passes) leaves '{p}' behind: a renamed "
                        f"definition with an unrenamed use, or the reverse")
+
+
+def _rhs_only(run, P):
+    """map_expressions(mapper, include_lhs=False), as used by self-dependency
+    elimination: everything except the names the statement writes is mapped."""
+    from . import stmtmodel as sm
+    for K in sm.statement_classes(P):
+        raw = sm.raw_copy_values(P, K, include_lhs=False)
+        W = {sm.head(p) for p in sm.written_set(P, K)}
+        for field, (paths, fn, node) in sorted(raw.items()):
+            left = set()
+            for p_ in paths:
+                if sm.head(p_) in W:
+                    continue            # the written names: what include_lhs=False is for
+                if p_.endswith("{k}"):
+                    continue            # keys of a mapping are not expressions
+                if p_.startswith("loops[*][0]"):
+                    continue            # a loop identifier cannot be an assignee of its own statement
+                left.add(p_)
+            run.ob("C07.mapexpr", fn, node, not left,
+                   construct=f"{K.name}.map_expressions(include_lhs=False): {field} is rebuilt "
+                             f"through the mapper" + (f" (un-mapped: {sorted(left)})" if left else ""),
+                   why="self-dependency elimination renames the variable it copies in every "
+                       "field but the written names: a name list that is bound inside a "
+                       "mapped field (the unknowns of an implicit solve) and stays behind "
+                       "no longer matches the renamed occurrences")
+
+
+def _flat_and(run, P):
+    """flat_LogicalAnd keeps every operand: each child is either spliced (its
+    own children) or appended, on every path through the loop body."""
+    from ..engine.cfg import CFG, walk_fragment
+    run.rule("C07.conj", "the guard conjunction keeps every operand (constants "
+             "included): a dropped False turns a dead statement live", minimum=1)
+    f = P.func(f"{MOD}.flat_LogicalAnd")
+    g = CFG(f.node)
+    loops = [n for n in g.nodes if n.kind == "for"]
+    if len(loops) != 1 or not isinstance(loops[0].ast.target, ast.Name):
+        raise AnalysisError("flat_LogicalAnd: loop over the operands not found")
+    lp = loops[0]
+    v = lp.ast.target.id
+    va = f.node.args.vararg.arg if f.node.args.vararg else None
+    keeps = [n for n in g.nodes if n.kind == "stmt" and n.ast is not None and any(
+        isinstance(x, ast.Call) and isinstance(x.func, ast.Attribute)
+        and x.func.attr in ("append", "extend") and x.args and any(
+            isinstance(y, ast.Name) and y.id == v for y in ast.walk(x.args[0]))
+        for x in walk_fragment(n.ast))]
+    body_first = [t for t, lab in g.succ[lp] if lab == "T"]
+    skip = lp in g.reachable(body_first, avoid=keeps, follow_exc=False, include_start=True) \
+        if body_first else True
+    ok = bool(keeps) and not skip and norm(lp.ast.iter) == va
+    run.ob("C07.conj", f, lp.ast, ok,
+           construct=f"flat_LogicalAnd: every operand is appended or spliced "
+                     f"({len(keeps)} keeping statement(s)"
+                     + (", some path through the loop body keeps nothing)" if skip else ")"),
+           why="guards of introduced statements are built with this helper: dropping a "
+               "constant operand drops a literal False guard, and the statements "
+               "introduced for a dead statement then run and read a flag that is never set")
+
+
+def _kwpair(run, P):
+    """Wherever the passes rebuild a keyword-argument mapping, each name stays
+    with (the transform of) its own value."""
+    from .c14 import _seq_signature
+    run.rule("C07.kwpair", "a rebuilt keyword mapping pairs every name with the "
+             "transform of its own value", minimum=2)
+    m = P.module(MOD)
+    n = 0
+    for f in m.functions.values():
+        for x in ast.walk(f.node):
+            # {k: g(v) for k, v in <...kw_parameters.items()>}
+            if isinstance(x, ast.DictComp) and any("kw_parameters" in ast.unparse(g_.iter)
+                                                   for g_ in x.generators):
+                gen = x.generators[0]
+                ok = isinstance(gen.target, ast.Tuple) and len(gen.target.elts) == 2 \
+                    and all(isinstance(e, ast.Name) for e in gen.target.elts)
+                if ok:
+                    k, v = (e.id for e in gen.target.elts)
+                    used = {y.id for y in ast.walk(x.value) if isinstance(y, ast.Name)}
+                    ok = dotted(x.key) == k and v in used and k not in used \
+                        and ".items()" in ast.unparse(gen.iter)
+                n += 1
+                run.ob("C07.kwpair", f, x, ok,
+                       construct=f"{{name: <transform of its value> for name, value in "
+                                 f"{norm(gen.iter, 60)}}}",
+                       why="a keyword argument that ends up under another name changes "
+                           "the call")
+            # for k, v in <...kw_parameters.items()>: D[k] = <from v>
+            if isinstance(x, ast.For) and "kw_parameters" in ast.unparse(x.iter) \
+                    and isinstance(x.target, ast.Tuple) and len(x.target.elts) == 2 \
+                    and all(isinstance(e, ast.Name) for e in x.target.elts):
+                k, v = (e.id for e in x.target.elts)
+                stores = [s_ for s_ in ast.walk(x) if isinstance(s_, ast.Assign)
+                          and isinstance(s_.targets[0], ast.Subscript)]
+                ok = bool(stores) and all(
+                    dotted(s_.targets[0].slice) == k and any(
+                        isinstance(y, ast.Name) and y.id == v for y in ast.walk(s_.value))
+                    for s_ in stores)
+                n += 1
+                run.ob("C07.kwpair", f, x, ok,
+                       construct=f"for name, value in {norm(x.iter, 60)}: <mapping>[name] = <from value>",
+                       why="a keyword argument that ends up under another name changes "
+                           "the call")
+            # zip(<names>, <values>) built separately
+            if isinstance(x, ast.Call) and dotted(x.func) == "zip" and len(x.args) == 2 \
+                    and "kw_parameters" in ast.unparse(x) + "".join(
+                        ast.unparse(_resolve_local_c07(f.node, a_)) for a_ in x.args):
+                a = _seq_signature(f.node, x.args[0])
+                b = _seq_signature(f.node, x.args[1])
+                n += 1
+                run.ob("C07.kwpair", f, x, a == b,
+                       construct=f"zip(names from {a[0]}{' via ' + '/'.join(a[1]) if a[1] else ''}, "
+                                 f"values from {b[0]}{' via ' + '/'.join(b[1]) if b[1] else ''})",
+                       why="names and values are paired by position: ordering one sequence "
+                           "and not the other gives f(alpha=B, beta=A) for f(beta=B, alpha=A)")
+    if n < 2:
+        raise AnalysisError("C07.kwpair: keyword mappings rebuilt by the passes not found")
+
+
+def _resolve_local_c07(fn, expr):
+    if isinstance(expr, ast.Name):
+        defs = [s_.value for s_ in ast.walk(fn) if isinstance(s_, ast.Assign)
+                and len(s_.targets) == 1 and isinstance(s_.targets[0], ast.Name)
+                and s_.targets[0].id == expr.id]
+        if len(defs) == 1:
+            return defs[0]
+    return expr
 
 
 def _name_fields(P, K):
